@@ -107,11 +107,11 @@ def run(tier, seed):
     if q:
         pats = rng.sample(pats, min(len(pats), 900))
     else:
-        pats = rng.sample(pats, min(len(pats), 12000))
+        pats = rng.sample(pats, min(len(pats), 4000))
     nmax = 4 if q else 5
     targets = ["".join(t) for n in range(1, nmax + 1) for t in itertools.product("ACGT", repeat=n)]
     for p in pats:
-        ts = rng.sample(targets, 10 if q else 30)
+        ts = rng.sample(targets, 10 if q else 25)
         for t in ts:
             if rng.random() < 0.25:
                 t = "".join(c.lower() if rng.random() < 0.5 else c for c in t)
